@@ -268,7 +268,7 @@ fn find_miri(r: &mut Runner, rev: bool) {
     for &len in lens {
         // positions: region boundaries
         let mut ps: Vec<Option<usize>> = vec![None];
-        for q in [0usize, 1, 7, 8, 15, 16, 17, v - 1, v, v + 1, 2 * v - 1, 2 * v, 3 * v, 4 * v - 1, 4 * v, 4 * v + 1, 5 * v, 8 * v] {
+        for q in [0usize, 1, 2, 3, 4, 5, 6, 7, 8, 9, 11, 12, 15, 16, 17, v - 1, v, v + 1, 2 * v - 1, 2 * v, 3 * v, 4 * v - 1, 4 * v, 4 * v + 1, 5 * v, 8 * v] {
             if q < len {
                 ps.push(Some(q));
                 ps.push(Some(len - 1 - q));
